@@ -91,15 +91,35 @@ open(p,'w').write(s)
 EOF
   ;;
 3)
-  # C08: the block Merkle root comparison is dropped; C09: two heights in one commit accepted;
+  # C08: the block Merkle root comparison is dropped and subscribers are notified before the commit;
+  # C09: two heights in one commit accepted
   sed -i 's/if actual_block_root != expected_block_root {/if false \&\& actual_block_root != expected_block_root {/' $WT/crates/services/importer/src/importer.rs
   sed -i 's/if new_heights.len() > 1 {/if new_heights.len() > 2 {/' $S/database.rs
+  python3 - <<EOF
+p='$WT/crates/services/importer/src/importer.rs'
+s=open(p).read()
+old="""        self.database
+            .commit_changes(StorageChanges::ChangesList(vec![block_changes, changes]))?;
+"""
+assert old in s
+s=s.replace(old,"",1)
+old2="""        let _ = self.broadcast.send(result);
+
+        Ok(())"""
+assert old2 in s
+s=s.replace(old2,"""        let _ = self.broadcast.send(result);
+        self.database
+            .commit_changes(StorageChanges::ChangesList(vec![block_changes, changes]))?;
+
+        Ok(())""",1)
+open(p,'w').write(s)
+EOF
   ;;
 esac
 git -C $WT diff --stat
 export VERIF_REPO_OVERRIDE=$WT
 cd /verif
-for id in C11 C12 C09 C08; do
+for id in ${IDS:-C11 C12 C09 C08}; do
   echo "=== $id (mutant round $ROUND)"
   ./check $id --tier quick 2>&1 | grep -v "^  \[" | tail -25
   echo "exit=$?"
